@@ -94,6 +94,21 @@ def record_set(rng, k, small=False):
                 w2 = w[:(k - 1) // 2] + rng.choice(BASES) + w[(k - 1) // 2 + 1:]
                 at2 = rng.choice([a for a in range(0, n - k + 1) if abs(a - at) > k] or [at])
                 s = s[:at2] + w2 + s[at2 + k:]
+        if n >= k + 1 and rng.random() < 0.25:
+            # low-complexity stretch: runs of one base meeting another run (consecutive windows share BOTH arms and differ
+            # only in the middle base), a run longer than k (the same k-mer in consecutive windows), a dinucleotide repeat
+            h = (k - 1) // 2
+            x, y = rng.sample(BASES, 2)
+            kind = rng.random()
+            if kind < 0.5:
+                lc = x * (h + rng.choice([1, 1, 2])) + y * (h + rng.choice([1, 1, 2]))
+            elif kind < 0.75:
+                lc = x * (k + rng.choice([1, 2, 5]))
+            else:
+                lc = (x + y) * ((k + 3) // 2 + 1)
+            lc = lc[:n]
+            at = rng.randint(0, n - len(lc))
+            s = s[:at] + lc + s[at + len(lc):]
         s = plant_ns(rng, s, k)
         s = mutate_case(rng, s)
         recs.append(s)
